@@ -6,6 +6,7 @@ import VerifModel.Model.SubsetGen
 import VerifModel.Model.BrierGen
 import VerifModel.Gen.TextHeader
 import VerifModel.Driver.Text
+import VerifModel.Gen.Agg
 /-
   Driver ops that EXECUTE the definitions regenerated from /repo by harness/translate_more.py, so that the
   translator itself is validated on every run against the real functions (same op line on both sides):
@@ -20,6 +21,11 @@ import VerifModel.Driver.Text
     genhdr <word>;<word>;…        for every header word (encoding of Driver/Text.lean) the classes the generated
                                   classifiers Gen.TextHeader.isQ / isP / isE / isOther put it in: letters q p e o,
                                   `-` for none, words separated by `,`              (C09, stream text.genhdr)
+    genagg <name> <v>             the aggregator `verif.aggregator.get(name)` applied to the 1-d array v, computed with the
+                                  GENERATED class bodies: a name of Gen.Agg.classNames (constructible without an argument)
+                                  -> Gen.Agg.callByName; a decimal number that Gen.Agg.initRejects_quantile does not refuse
+                                  -> the generated Quantile body at that level; EXC = NumPy raises, ERR = no such aggregator
+                                                                                   (C15, stream agg.gen)
 -/
 namespace VerifModel.Driver.GenMore
 open VerifModel Proto
@@ -60,6 +66,21 @@ def handle (args : List String) : Option String :=
           ++ (if Gen.TextHeader.isE w then "e" else "") ++ (if Gen.TextHeader.isOther w then "o" else "")
         if s == "" then "-" else s
       some (",".intercalate (words.map cls))
+  | ["genagg", name, v] => do
+      let v ← parseVec? v
+      let show' (r : Option (Option XR)) : String := match r with
+        | none => "ERR"
+        | some none => "EXC"
+        | some (some x) => toString x
+      match Gen.Agg.classNames.lookup name with
+      | some 0 => some (show' (Gen.Agg.callByName floatTr name .nan v))
+      | some _ => some "EXC"                 -- aggregator() without its constructor argument: TypeError
+      | none =>
+        match Agg.parseDecimal? name with
+        | none => some "ERR"
+        | some q =>
+          if Gen.Agg.initRejects_quantile (.fin q) then some "ERR"
+          else some (show' (Gen.Agg.callByName floatTr "quantile" (.fin q) v))
   | _ => none
 
 end VerifModel.Driver.GenMore
